@@ -169,7 +169,7 @@ def map_call_to_procedure_body(call, caller, callee=None):
                 raise RuntimeError(
                     f'[Loki::TransformInline] Cannot resolve procedure call to {call.name}'
                 )
-            arg_vars = tuple(v for v in callee_vars if v.name == arg.name)
+            arg_vars = tuple(v for v in callee_vars if v.name.lower() == arg.name.lower())
             argmap.update((v, _map_unbound_dims(v, qualified_value)) for v in arg_vars)
         else:
             argmap[arg] = val
